@@ -69,7 +69,7 @@ namespace
     return o;
   }
   const char *BASE_NAMES[] = {"rich world", "rich world, other constants and geometry", "rich world with depth surfaces given at points", "rich world with forced surface temperature", "area features only", "rich world whose oceanic plate has two oblique ridge segments with a transform fault and spreading velocities varying along them",
-                              "area features with three small faults and a small slab on long traces running along x, along y and diagonally", "area features, the continental plate's max depth given at 20 points in general position"
+                              "area features with three small faults and a small slab on long traces running along x, along y and diagonally", "area features whose depth surfaces (continental and oceanic max depth, mantle layer min depth) are given at 30 points each in general position"
                              };
 
   struct ProbePt { double x, y, depth; bool boundary; };
@@ -92,8 +92,8 @@ namespace
                 v.push_back({(tr[i][0] + t*(tr[i+1][0]-tr[i][0]))*s, (tr[i][1] + t*(tr[i+1][1]-tr[i][1]))*s, d, false});
       }
     if (many_depth_points)
-      for (double x = -4.75; x < 0; x += 0.5) for (double y = -4.75; y < 5; y += 0.5)
-          for (double d : {1.02e5, 1.18e5, 1.33e5, 1.52e5, 1.71e5, 1.88e5, 2.1e5})
+      for (double x = -4.75; x < 5; x += 0.5) for (double y = -4.75; y < 5; y += 0.5)
+          for (double d : {0.62e5, 0.74e5, 0.86e5, 0.97e5, 1.08e5, 1.18e5, 1.29e5, 1.37e5, 1.52e5, 1.71e5, 1.88e5, 2.1e5})
             v.push_back({x*s, y*s, d, false});
     if (area_only && !many_depth_points)
       // points exactly on polygon edges and corners (and on the depth limits): exact motions must preserve them
@@ -103,7 +103,7 @@ namespace
     return v;
   }
 
-  struct BaseData { std::string text; std::vector<std::vector<double>> ans; std::vector<char> robust; std::vector<std::vector<double>> ans2; std::vector<char> robust2; };
+  struct BaseData { std::string threw; std::string text; std::vector<std::vector<double>> ans; std::vector<char> robust; std::vector<std::vector<double>> ans2; std::vector<char> robust2; };
 
   bool same_class(const std::vector<double> &a, const std::vector<double> &b)
   {
@@ -124,6 +124,8 @@ namespace
     d.text = worlds::rich(o);
     auto w = make_world(d.text, 1, "base");
     const auto pr = probes(spherical, o.area_only, o.long_traces, o.many_depth_points);
+    try
+      {
     const double delta_h = spherical ? 1e-6 : 0.1, delta_v = 0.1;   // degrees / metres
     for (auto &q : pr)
       {
@@ -171,6 +173,8 @@ namespace
           }
         d.robust2.push_back(rob);
       }
+      }
+    catch (const std::exception &e) { d.threw = std::string(e.what()).substr(0, 600); }
     return cache.emplace(key, d).first->second;
   }
 
@@ -202,6 +206,8 @@ namespace
     static const int c_cmp = Ctx::counter_id("answers_compared"), c_skip = Ctx::counter_id("skipped_near_boundary"), c_exact = Ctx::counter_id("exact_comparisons_incl_boundary_points"), c_2d = Ctx::counter_id("answers_compared_2d");
     const int b = static_cast<int>(idx % N_BASES);
     const Motion &m = motions[idx / N_BASES];
+    if (!base_data(b, false).threw.empty())
+      { ctx.violation("C08/cartesian/query-on-the-unmoved-world-throws", JObj().str("what", base_data(b, false).threw).str("base", BASE_NAMES[b]).str("world", base_data(b, false).text).done()); return; }
     const BaseData &base = base_data(b, false);
     worlds::Opt o = base_opt(b, false);
     o.map = [&m](const P2 &p) { return apply(m, p); };
@@ -274,6 +280,8 @@ namespace
     // io == offs.size(): offset 0 (the base world itself), queried through longitude aliases only
     const double off = io < offs.size() ? offs[io] : 0.0;
     const BaseData &base = base_data(b, true);
+    if (!base.threw.empty())
+      { ctx.violation("C08/spherical/query-on-the-unmoved-world-throws", JObj().str("what", base.threw).str("base", BASE_NAMES[b]).str("world", base.text).done()); return; }
     worlds::Opt o = base_opt(b, true);
     o.shift = off;
     const std::string text = worlds::rich(o);
